@@ -191,13 +191,31 @@ func runC12(t *rapid.T) {
 	}
 	md := &model{m: map[string][]byte{}, o: map[string]ov{}}
 	valCtr := 0
-	newVal := func() []byte { valCtr++; return []byte(fmt.Sprintf("v%d", valCtr)) }
+	newVal := func() []byte {
+		valCtr++
+		if simkit.Chance(t, "emptyval", 1, 8) {
+			return []byte{} // a stored empty value is a value, not an absence
+		}
+		return []byte(fmt.Sprintf("v%d", valCtr))
+	}
+	// a small pool of relative keys per run, so that operations keep hitting the same keys
+	nPool := simkit.Int(t, "npool", 2, 8)
+	keyPool := make([][]byte, nPool)
+	for i := range keyPool {
+		keyPool[i] = genSuffix(t, "pool", 3)
+	}
+	poolKey := func(label string) []byte {
+		if simkit.Chance(t, label+".fresh", 1, 6) {
+			return genSuffix(t, label, 3)
+		}
+		return keyPool[simkit.Int(t, label+".pool", 0, nPool-1)]
+	}
 	var hist []opRec
 
 	// view prefixes (relative to root)
 	vp := [][]byte{{}, {0x41}, {0x41, 0x42}, {0x42}}
 	// initial content, inside and outside the root prefix
-	nInit := simkit.Int(t, "ninit", 0, 14)
+	nInit := simkit.Int(t, "ninit", 0, 16)
 	for i := 0; i < nInit; i++ {
 		var k []byte
 		switch simkit.Int(t, "initwhere", 0, 5) {
@@ -206,7 +224,7 @@ func runC12(t *rapid.T) {
 		case 1:
 			k = cat([]byte{0x0b}, genSuffix(t, "ik", 2))
 		default:
-			k = cat(rootPrefix, vp[simkit.Int(t, "ivp", 0, len(vp)-1)], genSuffix(t, "ik", 3))
+			k = cat(rootPrefix, vp[simkit.Int(t, "ivp", 0, len(vp)-1)], poolKey("ik"))
 		}
 		v := newVal()
 		database.Set(k, v)
@@ -223,13 +241,34 @@ func runC12(t *rapid.T) {
 
 	nOps := simkit.Int(t, "nops", 1, 40)
 	nontrivial := false
+	// swarm: each run draws its own operation mix (weight 0 switches an operation kind off)
+	opKinds := []int{0, 1, 3, 4, 6, 9, 10, 11, 12, 13}
+	weights := make([]int, len(opKinds))
+	total := 0
+	for i := range weights {
+		weights[i] = []int{0, 1, 1, 3}[simkit.Int(t, "w", 0, 3)]
+		total += weights[i]
+	}
+	if total == 0 {
+		weights[1], total = 1, 1
+	}
+	drawOp := func() int {
+		r := simkit.Int(t, "op", 0, total-1)
+		for i, w := range weights {
+			if r < w {
+				return opKinds[i]
+			}
+			r -= w
+		}
+		return opKinds[0]
+	}
 	for i := 0; i < nOps; i++ {
 		v := views[simkit.Int(t, "view", 0, len(views)-1)]
 		rel := func(label string) []byte {
 			// a key relative to the view; biased to collide with other views' keys
-			return genSuffix(t, label, 3)
+			return poolKey(label)
 		}
-		switch op := simkit.Int(t, "op", 0, 13); op {
+		switch op := drawOp(); op {
 		case 0: // new view
 			if len(views) < 4 {
 				parent := v
